@@ -72,13 +72,36 @@ impl TimeZone {
             None
         };
 
-        Ok(Self {
+        let time_zone = Self {
             transitions,
             local_time_types,
             extra_rule,
-        })
+        };
+        time_zone.validate()?;
+
+        Ok(time_zone)
     }
 
+
+    /// Checks that every index and rule refers to something that exists, so that lookups cannot fail
+    fn validate(&self) -> Result<(), TimeZoneError> {
+        if (!self.transitions.is_empty() || self.extra_rule.is_none())
+            && self.local_time_types.is_empty()
+        {
+            return Err(TimeZoneError::InvalidTzFile("No local time types found"));
+        }
+        for transition in self.transitions.iter() {
+            if transition.local_time_type_index >= self.local_time_types.len() {
+                return Err(TimeZoneError::InvalidTzFile(
+                    "Transition refers to a missing local time type",
+                ));
+            }
+        }
+        if let Some(rule) = &self.extra_rule {
+            rule.validate()?;
+        }
+        Ok(())
+    }
 
     pub(crate) fn to_local_time_type(&self, timestamp: i64) -> LocalTimeType {
         let count = self.transitions.len();
